@@ -212,3 +212,71 @@ def stack_depth(tier):
                 'note': 'not a proof obligation: a demonstration that the known stack-depth finding still reproduces'}
     finally:
         shutil.rmtree(scratch, ignore_errors=True)
+
+
+CFG_EXPECTED = None
+
+
+@extra
+def cfg_inventory(tier):
+    """C17: the set of cfg(feature = ...) sites in jmespath/src must equal the recorded set (Rcvar alias, the ToJmespath
+    impls, the crate attribute / docs).  A new site means behaviour may differ between feature sets in a place no unit
+    covers: UNDECIDED (exit 2), not a violation."""
+    import json
+    rec = json.load(open(os.path.join(VERIF, 'config', 'cfg_sites.json')))
+    found = {}
+    for f in sorted(os.listdir(_src())):
+        if not f.endswith('.rs'):
+            continue
+        src = open(_src(f)).read()
+        mask = R.mask_source(src)
+        for m in re.finditer(r'cfg(?:_attr)?\s*\(\s*(not\s*\(\s*)?feature\s*=\s*"', mask):
+            # the feature name is inside a string literal (blanked in the mask): read it from the source
+            mm = re.match(r'cfg(?:_attr)?\s*\(\s*(not\s*\(\s*)?feature\s*=\s*"(\w+)"', src[m.start():])
+            if not mm:
+                continue
+            # what does the attribute guard?  the next item keyword after the attribute
+            tail = mask[m.end():m.end() + 400]
+            km = re.search(r'\b(pub\s+type\s+\w+|type\s+\w+|impl\b[^{]*|default\s+fn\s+\w+|fn\s+\w+|use\s+[\w:]+|doc\b)', tail)
+            what = re.sub(r'\s+', ' ', src[m.end() + km.start():m.end() + km.end()]).strip() if km else '?'
+            key = '%s|%s%s|%s' % (f, 'not ' if mm.group(1) else '', mm.group(2), what[:60])
+            found[key] = found.get(key, 0) + 1
+    exp = rec['sites']
+    if found != exp:
+        new = sorted(set(found) - set(exp))
+        gone = sorted(set(exp) - set(found))
+        return {'status': 'undecided', 'reason': 'cfg(feature) sites differ from the recorded inventory: new=%s gone=%s' % (new[:4], gone[:4]), 'found': found}
+    return {'status': 'ok', 'obligations': len(exp), 'discharged': len(exp), 'cmd': 'tools/extras.py cfg_inventory', 'sites': found}
+
+
+@extra
+def feature_builds(tier):
+    """C17: the crate type-checks under {default, sync} (stable) and {specialized, specialized+sync} (nightly)."""
+    scratch = tempfile.mkdtemp(prefix='vf_feat_')
+    try:
+        crate = os.path.join(scratch, 'jmespath')
+        subprocess.run(['rsync', '-a', '--exclude', 'target', _crate() + '/', crate + '/'], check=True)
+        combos = [(None, []), (None, ['sync'])]
+        if tier == 'thorough':
+            combos += [('nightly', ['specialized']), ('nightly', ['specialized', 'sync'])]
+        fails = []
+        done = []
+        for tc, feats in combos:
+            args = ['check', '--offline', '--lib'] + (['--features', ','.join(feats)] if feats else [])
+            env = dict(os.environ, CARGO_NET_OFFLINE='true', CARGO_TARGET_DIR=os.path.join(scratch, 'target'))
+            env.pop('RUSTUP_TOOLCHAIN', None)
+            cmd = ['cargo'] + (['+' + tc] if tc else []) + args
+            p = subprocess.run(cmd, cwd=crate, env=env, capture_output=True, text=True, timeout=900)
+            name = '+'.join(feats) or 'default'
+            if p.returncode != 0:
+                if 'error[' in p.stderr or 'error:' in p.stderr:
+                    fails.append({'obligation': 'extra/feature_builds#build:%s' % name, 'kind': 'build', 'label': name, 'properties': ['C17'],
+                                  'function': 'crate', 'message': 'crate does not build with features [%s]' % name, 'clause': 'builds under every feature set',
+                                  'site': {'repo': 'jmespath/'}, 'rendered': p.stderr[-1500:], 'backend': 'extra', 'witness': {'features': feats}, 'witness_replayed': True})
+                else:
+                    return {'status': 'undecided', 'reason': 'cargo failed: ' + p.stderr[-300:]}
+            done.append(name)
+        return {'status': 'fail' if fails else 'ok', 'failures': fails, 'obligations': len(combos), 'discharged': len(combos) - len(fails),
+                'cmd': 'cargo [+nightly] check --offline --lib [--features ...] on a scratch copy', 'feature_sets': done}
+    finally:
+        shutil.rmtree(scratch, ignore_errors=True)
